@@ -51,6 +51,20 @@ DODOS = {
              "def task_a():\n    return {'actions': ['echo RAN-a'], 'calc_dep': ['c']}\n"),
     'file': ("def task_a():\n    return {'actions': ['echo RAN-a'], 'file_dep': ['y'], 'targets': ['x']}\n"
              "def task_b():\n    return {'actions': ['echo RAN-b'], 'file_dep': ['x'], 'targets': ['y']}\n"),
+    # cycles through tasks created at run time by a create_after creator (the created task takes over the
+    # placeholder's node, or is a sub-task): closed by a calc_dep, a task_dep, a setup edge of the created task
+    'delayed-calc': ("from doit import create_after\ndef task_pre():\n    return {'actions': ['echo pre']}\n"
+                     "@create_after(executed='pre')\ndef task_a():\n    return {'actions': ['echo RAN-a'], 'calc_dep': ['c']}\n"
+                     "def task_c():\n    return {'actions': ['echo RAN-c'], 'task_dep': ['a']}\n"),
+    'delayed-taskdep': ("from doit import create_after\ndef task_pre():\n    return {'actions': ['echo pre']}\n"
+                        "@create_after(executed='pre')\ndef task_a():\n    return {'actions': ['echo RAN-a'], 'task_dep': ['b']}\n"
+                        "def task_b():\n    return {'actions': ['echo RAN-b'], 'task_dep': ['a']}\n"),
+    'delayed-setup': ("from doit import create_after\ndef task_pre():\n    return {'actions': ['echo pre']}\n"
+                      "@create_after(executed='pre')\ndef task_a():\n    return {'actions': ['echo RAN-a'], 'setup': ['b']}\n"
+                      "def task_b():\n    return {'actions': ['echo RAN-b'], 'task_dep': ['a']}\n"),
+    'delayed-sub-calc': ("from doit import create_after\ndef task_pre():\n    return {'actions': ['echo pre']}\n"
+                         "@create_after(executed='pre')\ndef task_g():\n    yield {'name': 'x', 'actions': ['echo RAN-gx'], 'calc_dep': ['c']}\n"
+                         "def task_c():\n    return {'actions': ['echo RAN-c'], 'task_dep': ['g:x']}\n"),
 }
 
 
